@@ -890,6 +890,29 @@ def _reader_shape_findings(prog, fns):
                     out.append(('R10', f, i, '%s#list-member-%s:%s' % (top.qname, h.split(' ')[0], n['name']),
                                 '%s %s the multi-valued member %s while parsing: an entry that was read from the input is overwritten or dropped, so a list with such '
                                 'entries does not survive serialize/parse' % (top.display()[:50], 'applies %s to' % h.split(' ')[0], n['name'])))
+        # ... and so does a local list that collects what is read (values of a multi-valued field) before it is stored
+        collected = set()
+        for i, n in f.calls():
+            s_ = f.sym(n) or {}
+            tgt = n.get('obj') if n.get('obj') is not None else (n['opargs'][0] if n.get('op') in ('<<', '+=') and n.get('opargs') else None)
+            args = n.get('args') if n.get('obj') is not None else (n.get('opargs') or [None])[1:]
+            if tgt is None or (s_.get('name') not in ('append', 'push_back', 'operator<<', 'operator+=', 'emplace_back') and n.get('op') not in ('<<', '+=')):
+                continue
+            tn = f.nodes[f.skip(tgt)]
+            if tn['k'] == 'var' and tn.get('vk') == 'local' and any((tn.get('t') or '').replace('const ', '').startswith(x) for x in LIST_TYPES) \
+                    and any(a is not None and _from_dom_text(f, a) for a in args):
+                collected.add(tn.get('decl'))
+        for i, n in f.calls():
+            if n.get('obj') is None:
+                continue
+            tn = f.nodes[f.skip(n['obj'])]
+            nm = (f.sym(n) or {}).get('name') or ''
+            if tn['k'] == 'var' and tn.get('decl') in collected and top.qname not in SHRINK_OK and \
+                    nm in ('removeDuplicates', 'removeAll', 'removeOne', 'removeAt', 'removeFirst', 'removeLast', 'removeIf', 'erase', 'takeFirst', 'takeLast', 'takeAt', 'pop_back',
+                           'pop_front', 'clear', 'resize', 'sort', 'remove', 'replace', 'truncate'):
+                out.append(('R10', f, i, '%s#collected-values-%s:%s' % (top.qname, nm, tn.get('name')),
+                            '%s applies %s() to %s, the list in which it collects the values it reads: values that were in the input (repeated, or in their order) are not what is '
+                            'stored, so the object does not serialize back to - or hash like - what was received' % (top.display()[:50], nm, tn.get('name'))))
         for i, n in list(f.all_nodes('assign')) + [(i, n) for i, n in f.calls() if n.get('op') == '=' and len(n.get('opargs', [])) == 2]:
             lhs = f.nodes[f.skip(n['l'] if n['k'] == 'assign' else n['opargs'][0])]
             src = None
